@@ -233,8 +233,12 @@ PROPS['C10'] = dict(
         raw_oracle=oracles.writer_oracle),
     rule='every sequence over {A,C} up to length 6 (thorough: 8) x wrap widths 1..5 x every chunking incl. empty chunks x all '
          'FASTA writer entry points, plus random headers / id+description / sequences and records written back to back; output '
-         'compared byte-exactly with the model, parsed back with the real reader; non-trivial = inside the documented domain',
-    assumptions=['io::Write into a Vec<u8> never fails'],
+         'compared byte-exactly with the model, parsed back with the real reader; non-trivial = inside the documented domain. Every '
+         'call is made twice, into a Vec<u8> and into a writer that accepts 1-3 bytes per write() and has only the default '
+         'write_vectored: both must receive the same bytes. Records returned by the FASTA reader (random inputs and histories) are '
+         'written with RefRecord::write and write_wrap(3) into such a writer and compared with the model and with the layout the '
+         'documentation prescribes for the record\'s own head and sequence',
+    assumptions=['the io::Write never fails (short writes and the default write_vectored are exercised)'],
 )
 
 
@@ -419,7 +423,16 @@ def recode_group(group):
 def unchanged(case, toks, log, items):
     if case['kind'] != 'R':
         return None
-    return oracles.unchanged_oracle(case, toks)
+    v = oracles.unchanged_oracle(case, toks)
+    if v.failures:
+        return v
+    v2 = oracles.refwrite_oracle(case, toks)
+    v2.nontrivial = v2.nontrivial or v.nontrivial
+    return v2
+
+
+def refwrite(case, toks, log, items):
+    return oracles.refwrite_oracle(case, toks)
 
 
 def faults(case, toks, log, items):
@@ -466,8 +479,9 @@ PROPS['C11'] = dict(
         group_size=6, group_oracle=lambda g: None, oracle=unchanged),
     rule='FASTQ writer entry points on random fields (round trip through the real reader), and write_unchanged of every record of '
          'well-formed files in six encodings: the concatenated output must reproduce the input bytes up to the final terminator '
-         '(FASTQ: trailing blank lines dropped)',
-    assumptions=ASSUME_READER + ['io::Write into a Vec<u8> never fails'],
+         '(FASTQ: trailing blank lines dropped); all writing goes into a writer that accepts 1-3 bytes per write(); RefRecord::write of '
+         'every record is compared with the documented four-line layout of its own fields',
+    assumptions=ASSUME_READER + ['the io::Write never fails (short writes and the default write_vectored are exercised)'],
 )
 
 PROPS['C14'] = dict(
@@ -579,12 +593,29 @@ for _k, _v in PROPS.items():
 # rewrite of, say, write_unchanged then trips C11 and C13 only
 RECORD_FIELDS = {
     'C01': set('hln'), 'C02': set('hsq'), 'C03': set('hlsqn'), 'C04': set('hlsq'), 'C05': set('hlsq'),
-    'C06': set('hlsq'), 'C09': set('h'), 'C11': set('hulsq'), 'C12': set('hlsqn'), 'C14': set('hlsq'),
+    'C06': set('hlsq'), 'C09': set('h'), 'C10': set('hlowx'), 'C11': set('huwlsq'), 'C13': set('hlrnbosqidv'), 'C12': set('hlsqn'), 'C14': set('hlsq'),
     'C17': set('h'), 'C18': set('h'),
 }
 
 
 # C11: FASTQ writer cases (W) go to the writer oracle, reader cases (R) to the unchanged-writing oracle
+# C10: writer cases (W) go to the writer oracle; records read by the FASTA reader (R) are written with
+# RefRecord::write / write_wrap and judged by the ref-write oracle
+_c10 = PROPS['C10']['runner']
+_c10.fams['quick'] = _c10.fams['quick'] + [('fa_rand', 6000), ('fa_hist', 1500)]
+_c10.fams['thorough'] = _c10.fams['thorough'] + [('fa_rand', 150000), ('fa_hist', 40000)]
+_c10.search_fams = _c10.fams['thorough']
+_c10_reader = engine.reader_oracle(refwrite)
+
+
+def _c10_oracle(c, o, s):
+    if c.startswith('W '):
+        return oracles.writer_oracle(c, o, s)
+    return _c10_reader(c, o, s)
+
+
+_c10.raw_oracle = _c10_oracle
+
 _c11 = PROPS['C11']['runner']
 _c11_reader = _c11.raw_oracle
 
